@@ -104,7 +104,7 @@ PROFILES = {
     "C01": [("random", {"fam": {"p_async": 0.2}}), ("random", {"fam": {"nsims": (3, 5), "nconns": (3, 7)}, "policy": {"early": 0.6}})],
     "C02": [("random", {"fam": {"p_async": 0.1}, "behaviour": {"p_future": 0.4, "ev_next": [None, 1, 2, 3]}}),
             ("random", {"fam": {"types": ["event-based", "hybrid"], "until": (3, 5)}, "behaviour": {"p_future": 0.5, "future": [0, 1, 2, 3]}})],
-    "C03": [("random", {"fam": {"shifts": (0, 0, 1, 2, 3), "until": (3, 5)}}),
+    "C03": [("random", {"fam": {"shifts": (0, 0, 1, 2, 3), "until": (3, 5), "p_two_entities": 0.4}}),
             ("random", {"fam": {"groups": False, "nsims": (2, 3), "until": (3, 6)}, "behaviour": {"tb_next": [1, 2, 4], "p_future": 0.3}})],
     "C05": [("random", {"fam": {"nsims": (2, 5), "nconns": (1, 7), "until": (2, 5), "p_async": 0.1}}),
             ("random", {"fam": {"shifts": (0, 1, 2, 3)}, "behaviour": {"p_future": 0.5, "future": [0, 1, 2, 3]}, "policy": {"early": 0.6}})],
@@ -152,10 +152,19 @@ def run(prop, tier, seed, model_part=None):
     if model_part is not None:
         cov_model, extra_pairs = model_part(prop, tier, seed)
         pairs += extra_pairs
+    # conformance of (S) on RANDOM scenarios of this property's family (internal traces validated by SchedTrace)
+    rconf = {}
+    if model_part is not None and PROFILES[prop][0][0] == "random":
+        from checks import model as _model
+
+        fam = dict(PROFILES[prop][0][1].get("fam") or {})
+        fam.pop("p_two_entities", None)
+        rconf, rc_pairs = _model.random_conformance(prop, tier, seed, fam=fam)
+        pairs += rc_pairs
     findings, st = sched_checks.judge_results(prop, pairs)
     cov = {
-        "states": st["monitor"]["states"] + cov_model.get("states", 0),
-        "transitions": st["monitor"]["generated"] + cov_model.get("transitions", 0),
+        "states": st["monitor"]["states"] + cov_model.get("states", 0) + rconf.get("states", 0),
+        "transitions": st["monitor"]["generated"] + cov_model.get("transitions", 0) + rconf.get("transitions", 0),
         "traces_validated_against_impl": st["executions"],
         "samples": sched_checks.sample_of(pairs[ndirected:ndirected + 1] + pairs[:1]),
         "evaluations": st["executions"],
@@ -169,6 +178,8 @@ def run(prop, tier, seed, model_part=None):
             "replayed_model_behaviours": len(extra_pairs),
             "trace_validation_states": st["monitor"]["states"],
             "model": cov_model,
+            "random_scenario_conformance": {k: v for k, v in rconf.items() if k != "drift"},
+            "random_scenario_drift": rconf.get("drift", []),
             "outcomes": st["stats"],
             "clauses_of_other_properties_seen": {k: v for k, v in st["all_clauses_seen"].items() if not k.startswith(prop + "_")},
         },
